@@ -28,9 +28,39 @@ def read_series_table(fe):
     fn = fe.find_def(REL, "derive_series")
     aliases = {}
     table = None
+    def subst(node, name, const):
+        class T(ast.NodeTransformer):
+            def visit_Name(self, n):
+                return ast.copy_location(ast.Constant(const), n) if n.id == name and isinstance(n.ctx, ast.Load) else n
+        return T().visit(ast.parse(ast.unparse(node), mode="eval").body)
+
+    def elements(v):
+        """The element expressions of a list / tuple display or of a comprehension over a literal range or sequence."""
+        if isinstance(v, (ast.List, ast.Tuple)):
+            return list(v.elts)
+        if isinstance(v, (ast.ListComp, ast.GeneratorExp)) and len(v.generators) == 1 and not v.generators[0].ifs and isinstance(v.generators[0].target, ast.Name):
+            g = v.generators[0]
+            try:
+                it = g.iter
+                if isinstance(it, ast.Call) and isinstance(it.func, ast.Name) and it.func.id == "range":
+                    vals = list(range(*[ast.literal_eval(a) for a in it.args]))
+                else:
+                    vals = list(ast.literal_eval(it))
+            except (ValueError, TypeError, SyntaxError):
+                return None
+            return [subst(v.elt, g.target.id, c) for c in vals]
+        if isinstance(v, ast.Call) and isinstance(v.func, ast.Name) and v.func.id in ("list", "tuple") and len(v.args) == 1:
+            return elements(v.args[0])
+        return None
     for st in fn.body:
         if isinstance(st, ast.Assign) and len(st.targets) == 1 and isinstance(st.targets[0], ast.Name):
             aliases[st.targets[0].id] = st.value
+        elif isinstance(st, ast.Assign) and len(st.targets) == 1 and isinstance(st.targets[0], (ast.Tuple, ast.List)) and all(isinstance(e, ast.Name) for e in st.targets[0].elts):
+            # x2, x3, ... = [simplify(x**n) for n in range(2, 7)] : one alias per element
+            els = elements(st.value)
+            if els is not None and len(els) == len(st.targets[0].elts):
+                for e, v in zip(st.targets[0].elts, els):
+                    aliases[e.id] = v
         elif isinstance(st, ast.If):
             # x = sqrt(u) if input_squared else u : keep symbolic name 'x'
             pass
